@@ -3,6 +3,7 @@ package routing
 import (
 	"context"
 	"fmt"
+	"math"
 
 	"github.com/btcsuite/btcd/btcec/v2"
 	"github.com/btcsuite/btclog/v2"
@@ -23,13 +24,16 @@ const BlockPadding uint16 = 3
 // greater than the final cltv delta parameter, optionally including the
 // BlockPadding in this calculation.
 func ValidateCLTVLimit(limit uint32, delta uint16, includePad bool) error {
+	// Widen the delta before adding the padding, a delta close to the
+	// maximum would otherwise wrap around to a small value.
+	minLimit := uint32(delta)
 	if includePad {
-		delta += BlockPadding
+		minLimit += uint32(BlockPadding)
 	}
 
-	if limit <= uint32(delta) {
+	if limit <= minLimit {
 		return fmt.Errorf("cltv limit %v should be greater than %v",
-			limit, delta)
+			limit, minLimit)
 	}
 
 	return nil
@@ -267,7 +271,13 @@ func (p *paymentSession) RequestRoute(maxAmt, feeLimit lnwire.MilliSatoshi,
 
 	// Add BlockPadding to the finalCltvDelta so that the receiving node
 	// does not reject the HTLC if some blocks are mined while it's in-flight.
+	//
+	// The padded delta must still fit, otherwise it would wrap around and
+	// the final hop would be given next to no blocks.
 	finalCltvDelta := p.payment.FinalCLTVDelta
+	if finalCltvDelta > math.MaxUint16-BlockPadding {
+		return nil, errNoPathFound
+	}
 	finalCltvDelta += BlockPadding
 
 	// We need to subtract the final delta before passing it into path
